@@ -167,3 +167,191 @@ def install_fh_contracts():
 
 def install_all():
     install_fh_contracts()
+
+
+# ---------------------------------------------------------------------------------
+# forecaster protocol monitors (re-entrant recording wrappers, see DESIGN section 1)
+# ---------------------------------------------------------------------------------
+def _fh_expected_index(fh_arg, self):
+    """labels a forecast must carry: cutoff + steps (relative) or the requested labels (absolute)"""
+    from sktime.forecasting.base._fh import ForecastingHorizon as FH
+
+    cutoff = self.cutoff
+    fh = fh_arg if fh_arg is not None else getattr(self, "_fh", None)
+    if fh is None or not _is_int(cutoff):
+        return None
+    if isinstance(fh, FH):
+        vals = fh.to_pandas()
+        if not _is_int_index(vals):
+            return None
+        vals = [int(v) for v in vals]
+        return [int(cutoff) + v for v in vals] if fh.is_relative else vals
+    try:
+        vals = sorted(int(v) for v in np.atleast_1d(np.asarray(fh)))
+    except Exception:  # noqa
+        return None
+    return [int(cutoff) + v for v in vals]
+
+
+def _params_snapshot(est):
+    try:
+        return {k: v for k, v in est.get_params(deep=False).items()}
+    except Exception:  # noqa
+        return None
+
+
+def _same_param(a, b):
+    if a is b:
+        return True
+    try:
+        if isinstance(a, (np.ndarray, pd.Series, pd.DataFrame, pd.Index)) or isinstance(b, (np.ndarray, pd.Series, pd.DataFrame, pd.Index)):
+            return type(a) is type(b) and np.array_equal(np.asarray(a), np.asarray(b))
+        return bool(a == b)
+    except Exception:  # noqa
+        return False
+
+
+def _data_digest(obj):
+    """cheap deep snapshot of caller data: values (NaN-aware), index labels, column labels, dtype"""
+    if obj is None:
+        return None
+    if isinstance(obj, pd.Series):
+        return ("S", obj.to_numpy(copy=True), list(obj.index), str(obj.dtype), obj.name)
+    if isinstance(obj, pd.DataFrame):
+        cells = obj.to_numpy(copy=True)
+        if cells.dtype == object:
+            cells = [[np.array(c, copy=True) if isinstance(c, (np.ndarray, pd.Series)) else c for c in row] for row in cells]
+        return ("D", cells, list(obj.index), [str(d) for d in obj.dtypes], list(obj.columns))
+    if isinstance(obj, np.ndarray):
+        return ("A", obj.copy(), obj.dtype.str)
+    return None
+
+
+def _digest_equal(a, b):
+    if a is None or b is None:
+        return a is b
+    if a[0] != b[0]:
+        return False
+    if a[0] == "A":
+        return a[2] == b[2] and a[1].shape == b[1].shape and bool(np.array_equal(a[1], b[1], equal_nan=a[1].dtype.kind == "f"))
+    if a[2] != b[2] or a[3] != b[3] or a[4] != b[4]:
+        return False
+    x, y = a[1], b[1]
+    if isinstance(x, list):
+        if len(x) != len(y):
+            return False
+        for r1, r2 in zip(x, y):
+            for c1, c2 in zip(r1, r2):
+                if isinstance(c1, np.ndarray):
+                    if not (isinstance(c2, np.ndarray) and c1.shape == c2.shape and np.array_equal(c1, c2, equal_nan=c1.dtype.kind == "f")):
+                        return False
+                elif not (c1 is c2 or c1 == c2 or (c1 != c1 and c2 != c2)):
+                    return False
+        return True
+    if x.shape != y.shape:
+        return False
+    try:
+        return bool(np.array_equal(x, y, equal_nan=True))
+    except TypeError:
+        return bool(np.array_equal(x, y))
+
+
+def install_forecaster_contracts():
+    if "forecaster" in _installed:
+        return
+    _installed.add("forecaster")
+    import functools
+    import importlib
+
+    for m in ("sktime.forecasting.naive", "sktime.forecasting.trend", "sktime.forecasting.exp_smoothing", "sktime.forecasting.ets",
+              "sktime.forecasting.theta", "sktime.forecasting.compose", "sktime.forecasting.online_learning",
+              "sktime.forecasting.model_selection"):
+        try:
+            importlib.import_module(m)
+        except Exception:  # noqa
+            pass
+    from sktime.forecasting.base._sktime import _SktimeForecaster
+
+    def all_subclasses(c):
+        out = []
+        for s in c.__subclasses__():
+            out.append(s)
+            out.extend(all_subclasses(s))
+        return out
+
+    def wrap_fit(cls, orig):
+        @functools.wraps(orig)
+        def fit(self, y, X=None, fh=None, **kw):
+            before = _params_snapshot(self)
+            dy, dX = _data_digest(y), _data_digest(X)
+            out = orig(self, y, X, fh, **kw) if (kw or fh is not None or X is not None) else orig(self, y)
+            try:
+                cname = type(self).__name__
+                REC.record("C04", "fit.returns-self", out is self, "fit:returns-not-self:" + cname, "fit did not return the estimator itself")
+                REC.record("C04", "fit.sets-is_fitted", bool(self.is_fitted), "fit:is_fitted-not-set:" + cname, "is_fitted false after fit")
+                after = _params_snapshot(self)
+                if before is not None and after is not None:
+                    changed = [k for k in before if k not in after or not _same_param(before[k], after[k])]
+                    REC.record("C04", "fit.params-unchanged", not changed, "fit:changes-constructor-parameter:%s:%s" % (cname, ",".join(changed)),
+                               "fit changed constructor parameter(s) %s" % changed)
+                if isinstance(y, pd.Series) and len(y):
+                    REC.record("C03", "fit.cutoff", self.cutoff == y.index[-1], "cutoff:not-last-training-point-after-fit:" + cname,
+                               "cutoff after fit is not the last time point of the training series", cutoff=self.cutoff, last=y.index[-1])
+                REC.record("C12", "fit.caller-data-unchanged", _digest_equal(dy, _data_digest(y)) and _digest_equal(dX, _data_digest(X)),
+                           "fit:mutates-caller-data:" + cname, "fit modified the caller's data")
+            except Exception as e:  # noqa
+                REC.counters[("C03", "monitor-error:" + type(e).__name__)] += 1
+            return out
+        return fit
+
+    def wrap_predict(cls, orig):
+        @functools.wraps(orig)
+        def predict(self, fh=None, X=None, *a, **kw):
+            dX = _data_digest(X)
+            out = orig(self, fh, X, *a, **kw)
+            try:
+                cname = type(self).__name__
+                if isinstance(out, pd.Series):
+                    exp = _fh_expected_index(fh, self)
+                    if exp is not None:
+                        got = [int(v) for v in out.index] if out.index.dtype.kind in "iu" else list(out.index)
+                        REC.record("C03", "predict.index", got == exp, "predict:index-not-requested-horizon:" + cname,
+                                   "forecast is not labelled cutoff + fh (relative) / by the requested time points (absolute)", got=got[:12],
+                                   expected=exp[:12], cutoff=self.cutoff)
+                REC.record("C12", "predict.caller-data-unchanged", _digest_equal(dX, _data_digest(X)), "predict:mutates-caller-data:" + cname,
+                           "predict modified the caller's X")
+            except Exception as e:  # noqa
+                REC.counters[("C03", "monitor-error:" + type(e).__name__)] += 1
+            return out
+        return predict
+
+    def wrap_update(cls, orig):
+        @functools.wraps(orig)
+        def update(self, y, X=None, *a, **kw):
+            dy, dX = _data_digest(y), _data_digest(X)
+            out = orig(self, y, X, *a, **kw)
+            try:
+                cname = type(self).__name__
+                if isinstance(y, pd.Series) and len(y):
+                    REC.record("C03", "update.cutoff", self.cutoff == y.index[-1], "cutoff:not-last-point-of-update-data:" + cname,
+                               "cutoff after update is not the last time point of the data passed to update", cutoff=self.cutoff, last=y.index[-1])
+                REC.record("C12", "update.caller-data-unchanged", _digest_equal(dy, _data_digest(y)) and _digest_equal(dX, _data_digest(X)),
+                           "update:mutates-caller-data:" + cname, "update modified the caller's data")
+            except Exception as e:  # noqa
+                REC.counters[("C03", "monitor-error:" + type(e).__name__)] += 1
+            return out
+        return update
+
+    for cls in [_SktimeForecaster] + all_subclasses(_SktimeForecaster):
+        d = cls.__dict__
+        if "fit" in d and callable(d["fit"]) and not getattr(d["fit"], "_vmon", False):
+            w = wrap_fit(cls, d["fit"]); w._vmon = True; setattr(cls, "fit", w)
+        if "predict" in d and callable(d["predict"]) and not getattr(d["predict"], "_vmon", False):
+            w = wrap_predict(cls, d["predict"]); w._vmon = True; setattr(cls, "predict", w)
+        if "update" in d and callable(d["update"]) and not getattr(d["update"], "_vmon", False):
+            w = wrap_update(cls, d["update"]); w._vmon = True; setattr(cls, "update", w)
+
+
+def install_all():
+    install_fh_contracts()
+    install_forecaster_contracts()
